@@ -9,7 +9,8 @@ import docx as D
 from common import run_driver
 from gen_docx import el
 
-PROFILE = dict(style_map=0.3, p_ignored=0.3, p_unknown=0.25, hostile=0.6, p_table=0.15, p_image=0.1, p_note=0.15, p_field=0.15, separators=False, p_embedded_map=0.05)
+PROFILE = dict(style_map=0.3, p_ignored=0.3, p_unknown=0.25, hostile=0.6, p_table=0.15, p_image=0.1, p_note=0.15, p_field=0.15, separators=False, p_embedded_map=0.05,
+               p_altcontent=0.25, p_deleted_tail=0.06, p_comment=0.1)
 IGNORED_INSERT = ["w:sectPr", "w:proofErr", "w:bookmarkEnd", "w:commentRangeStart", "w:commentRangeEnd", "w:lastRenderedPageBreak"]
 
 
@@ -18,6 +19,16 @@ def random_spelling(rng):
     for p in ("w", "r", "wp", "a", "pic", "mc", "v", "relationships", "content-types", "wordml", "o"):
         if rng.random() < 0.4:
             rename[p] = rng.choice(["x", "ns1", "W", "main", "q"]) + p.replace("-", "")
+    canon = ["w", "r", "wp", "a", "pic", "v", "o", "mc", "wordml"]
+    if rng.random() < 0.25:
+        # two namespaces exchange their customary prefixes (xmlns:v = wordprocessingml, xmlns:w = VML, ...)
+        p1, p2 = rng.sample(canon, 2)
+        rename[p1], rename[p2] = p2, p1
+    for p in ("wps", "wpg", "w14", "wp14", "a14"):
+        # Word's extension namespaces (named only in mc:Choice/@Requires, mc:Ignorable): another prefix, now and then one that
+        # is customary for a namespace the library knows (docx.xml_to_bytes resolves clashes with prefixes in use)
+        if rng.random() < 0.5:
+            rename[p] = rng.choice(canon + ["x" + p, "ns2", p.upper()])
     noise = {n for n in ("comments", "pis", "ws", "cdata", "charrefs", "rebind") if rng.random() < 0.5}
     enc = rng.choice(["utf-8", "utf-8", "utf-16"])
     return D.Spelling(strict=rng.random() < 0.4, rename=rename, default_ns=rng.choice([None, None, "w"]), noise=noise,
@@ -33,11 +44,31 @@ def insert_ignored(tree, rng):
     for c in ch:
         if name in ("w:body", "w:p", "w:tc", "w:txbxContent") and rng.random() < 0.15:
             out.append(el(rng.choice(IGNORED_INSERT if name != "w:p" else IGNORED_INSERT[1:]), [("w:id", "7")]))
+        elif name in MORE_CONTAINERS and rng.random() < 0.15:
+            out.append(el(rng.choice(IGNORED_INSERT[1:]), [("w:id", "7")]))
         out.append(insert_ignored(c, rng))
+    # ... and at the END of a container (where Word puts the section properties, and where ranges that began earlier end)
+    while name in ("w:body", "w:tc", "w:txbxContent") + MORE_CONTAINERS and ch and rng.random() < (0.3 if name in AFTER_LAST else 0.1):
+        out.append(el(rng.choice(IGNORED_INSERT if name in ("w:body", "w:tc", "w:txbxContent") else IGNORED_INSERT[1:]), [("w:id", "7")]))
     attrs = list(attrs)
     if name in ("w:p", "w:r", "w:tr") and rng.random() < 0.2:
         attrs.append(["w:rsidR", "00A1B2C3"])
     return [name, attrs, out]
+
+
+MORE_CONTAINERS = ("w:footnote", "w:endnote", "w:comment", "w:sdtContent", "w:hyperlink", "w:ins", "w:smartTag", "w:tbl", "w:tr")
+AFTER_LAST = ("w:body", "w:tc", "w:txbxContent", "w:footnote", "w:endnote", "w:comment")
+IGNORED_REMOVE = set(IGNORED_INSERT) | {"w:bookmarkEnd", "w:annotationRef", "w:footnoteRef", "w:endnoteRef"}
+
+
+def remove_ignored(tree, rng, p=0.6):
+    """the inverse respelling: leave out elements Word writes but the converter ignores (at any depth; where elements are
+    looked up by name rather than read in sequence their absence says nothing either)"""
+    if isinstance(tree, str):
+        return tree
+    name, attrs, ch = tree
+    return [name, [a for a in attrs if not (a[0].startswith("w:rsid") and rng.random() < p)],
+            [remove_ignored(c, rng, p) for c in ch if isinstance(c, str) or not (c[0] in IGNORED_REMOVE and rng.random() < p)]]
 
 
 def rename_parts(parts, rng):
@@ -110,6 +141,8 @@ def run(out, tier, seed, model_ok):
         for j in range(k):
             sp = {p["name"]: random_spelling(rng) for p in c["parts"] if "xml" in p}
             parts2 = [dict(p, xml=insert_ignored(p["xml"], rng)) if "xml" in p and p["name"].startswith("word/") and "_rels" not in p["name"] and rng.random() < 0.5 else p for p in c["parts"]]
+            if rng.random() < 0.35:
+                parts2 = [dict(p, xml=remove_ignored(p["xml"], rng)) if "xml" in p and p["name"].startswith("word/") and "_rels" not in p["name"] else p for p in parts2]
             parts2 = rename_parts(parts2, rng) if rng.random() < 0.4 else parts2
             sp = {p["name"]: random_spelling(rng) for p in parts2 if "xml" in p}
             order = list(range(len(parts2)))
@@ -147,7 +180,9 @@ def run(out, tier, seed, model_ok):
                               {"kind": "dom", "xml_hex": raw.hex()}, expected=m["parse"], actual=rp)
     out.rule = ("each generated package is written under random compositions of meaning-preserving respellings: prefix renaming, a default namespace, Strict vs Transitional "
                 "namespace URIs, XML declaration / UTF-8 BOM / UTF-16, CDATA sections and character references in text, comments, processing instructions, whitespace between "
-                "elements, zip entry order and compression, renaming of parts located through relationships, insertion of ignored elements and revision attributes; "
+                "elements, zip entry order and compression, renaming of parts located through relationships, insertion (also at the END of body / cell / note / comment / text box) and removal of ignored elements and revision attributes, "
+                "customary prefixes exchanged between namespaces or given to Word's extension namespaces, with the prefix lists of mc:Choice/@Requires and mc:Ignorable "
+                "following the spelling; generated packages include containers that end in a deleted-mark paragraph; "
                 "observation = (value, messages, raw text) must equal those of the canonical spelling; the canonical result also equals the Lean model's; the DOM that "
                 "minidom builds is sent to the Lean Dom model and compared with xmlparser/office_xml's tree")
     out.extra.update(respellings_per_document=k, dom_trees=len(dom_lines))
